@@ -114,6 +114,16 @@ static void run_pure(void)
                     if (e % 2) rng_shuffle(&rc, idx, cnt);
                     if (e % 4 == 3 && cnt < PRES_MAX - 1) { idx[cnt] = idx[0]; cnt++; }
                     pres_t pr; pres_build(&pr, &s, idx, cnt, e % 3 == 0 ? AL_MISALIGNED : AL_ALIGNED, place, &rc);
+                    /* one set in three: the fragments as an older release of the library stamped them (writer version below the
+                     * running one, re-sealed); still read-only while the library works on them */
+                    int oldw = (e % 3 == 2) && s.flen >= 80;
+                    if (oldw) {
+                        static const uint32_t ov[] = { 0x010500, 0x010200, 0x010100, 0x010603 };
+                        uint32_t v = ov[(e / 3 + li) % 4];
+                        for (int i = 0; i < cnt; i++) { g_rw(pr.base[i]); ref_put32((uint8_t *)pr.ptr[i] + REF_OFF_LIBVER, v); ref_hdr_reseal((uint8_t *)pr.ptr[i], idx[i] & 1); g_ro(pr.base[i]); }
+                        mon_count("guarded_sets_with_old_writer_version", 1);
+                    }
+                    uint64_t dig[PRES_MAX]; for (int i = 0; i < cnt; i++) dig[i] = mon_hash(pr.ptr[i], s.flen, 7);
                     int req = c.be == EC_BACKEND_FLAT_XOR_HD || c.be == EC_BACKEND_LIBERASURECODE_RS_VAND || code_firstk_invertible(&cd, present);
                     char *out = NULL; uint64_t ol = 0;
                     int drc = liberasurecode_decode(desc, pr.ptr, cnt, s.flen, e & 1, &out, &ol);
@@ -126,7 +136,9 @@ static void run_pure(void)
                         uint8_t *o = malloc(s.flen);
                         int rrc = liberasurecode_reconstruct_fragment(desc, pr.ptr, cnt, s.flen, dest, (char *)o);
                         mon_count("evaluations", 1); mon_count("guarded_reconstructs", 1);
-                        if (rrc == 0) { if (memcmp(o, s.frag[dest], s.flen)) mon_viol("C15", "reconstruct-wrong-bytes", "reconstruct(dest=%d) on guarded inputs (%s) differs from encode's fragment", dest, place_name[place]); }
+                        const uint8_t *want = s.frag[dest];
+                        for (int i = 0; i < cnt; i++) if (idx[i] == dest) { want = (const uint8_t *)pr.ptr[i]; break; }   /* a supplied destination comes back as supplied */
+                        if (rrc == 0) { if (memcmp(o, want, s.flen)) mon_viol("C15", "reconstruct-wrong-bytes", "reconstruct(dest=%d) on guarded inputs (%s) differs from encode's fragment", dest, place_name[place]); }
                         else if (req) mon_viol("C15", "reconstruct-failed", "reconstruct on guarded inputs returned %d", rrc);
                         free(o);
                     }
@@ -139,7 +151,7 @@ static void run_pure(void)
                     }
                     if (cnt) { if (liberasurecode_verify_stripe_metadata(desc, pr.ptr, cnt) != 0) mon_viol("C15", "stripe-check-failed", "verify_stripe_metadata failed on pristine guarded fragments"); mon_count("evaluations", 1); }
                     /* inputs unchanged (they are read-only, so a write would already have faulted) */
-                    for (int i = 0; i < cnt; i++) if (memcmp(pr.ptr[i], s.frag[idx[i]], s.flen)) { mon_viol("C15", "input-fragment-modified", "fragment %d changed", idx[i]); break; }
+                    for (int i = 0; i < cnt; i++) if (mon_hash(pr.ptr[i], s.flen, 7) != dig[i]) { mon_viol("C15", "input-fragment-modified", "fragment %d changed", idx[i]); break; }
                     pres_free(&pr);
                     /* fragments_needed with read-only index lists ending at a guard page */
                     if (sz) {
